@@ -241,11 +241,15 @@ WalletChecksR(e, st, u, tiph, wc, BB, reorgnow) ==
         listed == {x \in Rng(w.slips) : x.o \in Rng(w.unspent)}
         sum == SumSet({[o |-> x.o, amt |-> T3(x.amt)] : x \in listed})
         mine == {x.o : x \in {y \in u : y.owner = env.nodekey /\ y.kind # KBound /\ y.bh + G >= tiph}} \ NftPayloads(BB)
+        \* outputs exactly at the window edge are being rebroadcast or - too small to pay for it - collected by the
+        \* tip; a collected output's entry lingers in the map although nobody can spend it, and the wallet has
+        \* dropped it: the edge is left out of the comparison on both sides
+        edge == {y.o : y \in {z \in u : z.bh + G = tiph}}
     IN (IF ~LimbEq(sum, T3(w.balance)) THEN {Bad(e, "C19", "balance-differs-from-unspent-sum")} ELSE {})
        \* wc: outputs the wallet has committed to transactions it built since it was started (a transaction that left
        \* the node's pool may still confirm elsewhere: the wallet keeps its inputs committed)
        \* (C19 demands the set equality on chains without reorganisation: not from the first one on)
-       \cup (IF env.reorgs = 0 /\ ~reorgnow /\ w.pending = 0 /\ Rng(w.unspent) # mine \ wc
+       \cup (IF env.reorgs = 0 /\ ~reorgnow /\ w.pending = 0 /\ Rng(w.unspent) \ edge # (mine \ wc) \ edge
              THEN {Bad(e, "C19", IF wc = {} THEN "wallet-unspent-differs-from-ledger" ELSE "wallet-unspent-differs-from-ledger-minus-committed")}
              ELSE {})
 
@@ -299,7 +303,10 @@ OnBlock(e) ==
         known == e.parent = "" \/ e.parent \in DOMAIN U
         UU == IF lab \in DOMAIN U \/ ~known THEN U ELSE (lab :> ApplyTxs(parentU, rec.txs, e.h)) @@ U
         T == [tip |-> IF e.st.tiph = 0 THEN "" ELSE e.st.tip, tiph |-> e.st.tiph, utxo |-> ObsUtxo(e.st)]
-        isreorg == e.res = "AddedLc" /\ obs.tip # "" /\ e.parent # obs.tip
+        \* a reorganisation, or the attempt of one: a candidate above the tip that does not extend it and is refused
+        \* after unwinding and re-winding (the wallet goes through both)
+        isreorg == obs.tip # "" /\ e.parent # obs.tip
+                   /\ (e.res = "AddedLc" \/ (e.res = "Invalid" /\ e.h > obs.tiph))
         confirmed == IF e.res = "AddedLc" THEN {rec.txs[i].id : i \in DOMAIN rec.txs} ELSE {}
         P2 == [id \in (DOMAIN pool \cap Rng(e.st.pool)) |-> pool[id]]
     IN /\ B' = BB /\ U' = UU
